@@ -72,11 +72,20 @@ class _TextCueParser:
     else:
       raise ValueError("Unknown token type")
 
+  def _push_span(self, span: model.Span):
+    if isinstance(self.parent, model.Ruby):
+      # children of <ruby> other than <rt> are part of the ruby base
+      rb = model.Rb(self.parent.get_doc())
+      rb.push_child(span)
+      self.ruby_rbc.push_child(rb)
+    else:
+      self.parent.push_child(span)
+    self.parent = span
+
   def _handle_ts(self, token: TimestampTagToken):
 
     span = self._make_span(self.parent)
-    self.parent.push_child(span)
-    self.parent = span
+    self._push_span(span)
 
     ts = vtt_timestamp_to_secs(token.timestamp)
     parent_begin = None
@@ -118,8 +127,7 @@ class _TextCueParser:
     # all other tags can be handled as a span
 
     span = self._make_span(self.parent)
-    self.parent.push_child(span)
-    self.parent = span
+    self._push_span(span)
 
     if isinstance(span.parent(), model.P):
       span.set_style(styles.StyleProperties.BackgroundColor, _DEFAULT_BG_COLOR)
@@ -173,6 +181,10 @@ class _TextCueParser:
       self.parent = self.parent.parent()
 
     self.parent = self.parent.parent()
+
+    if isinstance(self.parent, model.Rb):
+      # the element was wrapped in <rb> and <rbc> when it was opened
+      self.parent = self.parent.parent().parent()
 
   def _handle_string(self, token: StringToken):
     lines = token.value.split("\n")
